@@ -332,6 +332,18 @@ func checkC02(c *ctx) {
 			reportBuild(c, "C02 built segment vs spec_of_batch (Count, Fields, stored values)", b, mode, parts)
 			return
 		}
+		// the model of the builder's stored-field pass (BuildAlg.stored_run) must produce what zapx produced
+		if i%3 == 0 {
+			sv := ask(c, sx.L(sx.N(zh.ReqStoredBuild), b.Sx()))
+			if _, isErr := sx.IsErr(sv); isErr {
+				mustH(fmt.Errorf("model rejected the stored-field builder request"))
+			}
+			if !sx.Equal(sv, obs.L[pStored]) {
+				c.Violation(fmt.Sprintf("C02 stored values of the built segment differ from the extracted stored-field pass (BuildAlg.stored_run)\nchunkMode=%d\nbatch: %s\nobserved: %s\nmodel: %s", mode, clip(b.Sx().String()), clip(obs.L[pStored].Pretty()), clip(sv.Pretty())), false)
+				return
+			}
+			c.Count("stored_pass_runs")
+		}
 		if bad := storedAPI(c, sb, b, spec); bad != "" {
 			small := zh.ShrinkBatch(b, func(nb zh.Batch) bool {
 				s2, _, sp2, e := buildObs(c, nb, mode)
